@@ -6,3 +6,5 @@ class Plugin(HistPlugin):
     id = 'C13'
     extra_import = 'HistProps HistPropCheck'
     check_fn = 'c13_check'
+    FINDING_BITS = 0
+    UNDECIDED_BITS = 1 | 2 | 4 | 8
